@@ -411,7 +411,7 @@ def gen_cases(rng, tier):
                '<pingReply uid="7"/>', '<setTextVector device="A" name="P" state="Ok"/>', '<delProperty device="A"/>', '<enableBLOB device="A">Sometimes</enableBLOB>',
                '<newTextVector device="A" name="P"><oneText name="e">caf\xe9 \xff</oneText></newTextVector>', '<message device="A" message="hi"/>',
                '<getProperties version="1.7" device=""/>', '<getProperties version="1.7.1"/>', '<getProperties version="v2" device="A"/>', '<getProperties version=""/>',
-               '<getProperties version="1,7" device="A" name="P"/>', '<getProperties/>', '<getProperties version="nan"/>', '<enableBLOB device="A" name="P">Also</enableBLOB>',
+               '<getProperties version="1,7" device="A" name="P"/>', '<getProperties/>', '<getProperties version="nan"/>',
                '<newTextVector device="A" name="P" timestamp="not a time"><oneText name="e">v</oneText></newTextVector>', '<newTextVector device="" name="P"><oneText name="e">v</oneText></newTextVector>']
     for n in (2,):
         base = base_script(n)
